@@ -123,3 +123,19 @@ Section Regroup.
         destruct (dedup_tz_complete _ _ _ Hin Hk) as [b [Hb Kb]]. exists b. tauto.
   Qed.
 End Regroup.
+
+Require RV.Proofs.UnfixedProofs.
+Example wf_upload_example :
+  wf_upload UnfixedProofs.up_ok /\ plain_props [[86; 69; 82; 83; 73; 79; 78; 58; 50; 46; 48]] /\
+  (exists c t z, In c (collect UnfixedProofs.up_ok) /\ In t (c_tzrefs c) /\ In z (u_tzs UnfixedProofs.up_ok) /\ z_tzid z = Some t).
+Proof.
+  destruct UnfixedProofs.export_unfixed_loses_vtimezone as [[_ W1] [[_ W2] _]].
+  inversion W1 as [|? ? Wtz W1']; subst. inversion W1' as [|? ? Wev1 _]; subst.
+  inversion W2 as [|? ? _ W2']; subst. inversion W2' as [|? ? Wev2 _]; subst.
+  split; [split|split].
+  - intros c [<-|[<-|[]]]; (split; [assumption|reflexivity]).
+  - intros z [<-|[]]. split; [exact Wtz|]. split; reflexivity.
+  - repeat constructor.
+  - eexists _, _, _. split; [left; reflexivity|]. split; [left; reflexivity|]. split; [left; reflexivity|].
+    cbn. exact UnfixedProofs.tzb_key.
+Qed.
